@@ -1,5 +1,6 @@
 import M3d.Gen.Kernels
 import M3d.Model.BlurIter
+import M3d.Model.ArapLin
 import Mathlib.Tactic.Ring
 import Mathlib.Tactic.NormNum
 import Mathlib.Algebra.Order.Field.Basic
@@ -20,11 +21,14 @@ placement rules of the model are exactly the expressions the operations of C10 e
 * 2-D `Subdivide`: `s[0].Scale(0.75).Add(s[1].Scale(0.25))`; 2-D `Blur`:
   `c.Scale(1 - rate).Add(sum.Scale(rate / count))`
 
+* `ARAP` (round 4): `Matrix3.MulColumn`, `Coord3D.Sub`, `Coord3D.Dot` and the per-neighbour expressions of
+  `arapOperator.Targets`, `Apply` and `ARAP.energy`
+
 An edit of one of these Go vector functions changes the generated text; then either the equation
 is still provable or this file stops compiling and the check reports the broken obligation.
 -/
 namespace M3d.KernelsTie.MeshOps
-open M3d.MeshOps M3d.Gen.Kernels M3d.GenPrelude
+open M3d.MeshOps M3d.Gen.Kernels M3d.GenPrelude M3d.ArapLin
 set_option linter.unusedSectionVars false
 set_option linter.unusedVariables false
 set_option linter.unusedSimpArgs false
@@ -118,5 +122,50 @@ theorem blur2_point (rate : K) (c : V2 K) (ns : List (V2 K)) :
     model2d.Coord_Add (model2d.Coord_Scale (g2 c) (1 - rate))
         (model2d.Coord_Scale (g2 (ns.foldl V2.add V2.zero)) (rate / (ns.length : K))) = g2 (blurPoint2 rate c ns) := by
   simp only [coord2_add, coord2_scale, blurPoint2]
+
+/-! ### The linear step of `ARAP` (`M3d/Model/ArapLin.lean`) -/
+
+/-- hand matrix → generated `Matrix3` -/
+@[reducible] def gm (m : Mat3 K) : model3d.Matrix3 K := ⟨m.m0, m.m1, m.m2, m.m3, m.m4, m.m5, m.m6, m.m7, m.m8⟩
+
+theorem mat3_mulColumn (m : Mat3 K) (c : V3 K) : model3d.Matrix3_MulColumn (gm m) (g3 c) = g3 (m.mulCol c) := by
+  cases m; cases c
+  simp only [model3d.Matrix3_MulColumn, model3d.XYZ, gm, g3, Mat3.mulCol, model3d.Coord3D.mk.injEq]
+  all_goals (first | ring1 | (refine ⟨?_, ?_, ?_⟩ <;> first | trivial | ring1))
+
+theorem coord3_sub (a b : V3 K) : model3d.Coord3D_Sub (g3 a) (g3 b) = g3 (ArapLin.sub a b) := by
+  cases a; cases b
+  simp only [model3d.Coord3D_Sub, model3d.Coord3D_Add, model3d.Coord3D_Scale, model3d.XYZ, g3, ArapLin.sub, V3.add, V3.scale,
+    model3d.Coord3D.mk.injEq]
+  all_goals (first | ring1 | (refine ⟨?_, ?_, ?_⟩ <;> first | trivial | ring1))
+
+theorem coord3_dot (a b : V3 K) : model3d.Coord3D_Dot (g3 a) (g3 b) = ArapLin.dot a b := by
+  cases a; cases b
+  simp only [model3d.Coord3D_Dot, g3, ArapLin.dot]
+  all_goals (first | rfl | ring1)
+
+/-- `Targets`: `result.Add(rotation.MulColumn(p.Sub(a.arap.coords[n]).Scale(w)))` with `w = weights[j] / 2`
+(`rotation` = the entry-wise sum the loop builds). -/
+theorem arap_target_term (acc p q : V3 K) (r1 r2 : Mat3 K) (w : K) :
+    model3d.Coord3D_Add (g3 acc)
+        (model3d.Matrix3_MulColumn (gm (r1.add r2)) (model3d.Coord3D_Scale (model3d.Coord3D_Sub (g3 p) (g3 q)) (w / 2))) =
+      g3 (acc.add ((r1.add r2).mulCol ((ArapLin.sub p q).scale (w / 2)))) := by
+  simp only [coord3_sub, coord3_scale, mat3_mulColumn, coord3_add]
+
+/-- `Apply`: `result.Add(p.Scale(w)).Sub(v[nSqueezed].Scale(w))`. -/
+theorem arap_apply_term (acc p q : V3 K) (w : K) :
+    model3d.Coord3D_Sub (model3d.Coord3D_Add (g3 acc) (model3d.Coord3D_Scale (g3 p) w)) (model3d.Coord3D_Scale (g3 q) w) =
+      g3 (ArapLin.sub (acc.add (p.scale w)) (q.scale w)) := by
+  simp only [coord3_sub, coord3_scale, coord3_add]
+
+/-- `energy`: `w * diff.Dot(diff)` with
+`diff = currentOutput[i].Sub(currentOutput[n]).Sub(rotation.MulColumn(a.coords[i].Sub(a.coords[n])))`. -/
+theorem arap_energy_term (oi on pi pn : V3 K) (r : Mat3 K) (w : K) :
+    w * model3d.Coord3D_Dot
+        (model3d.Coord3D_Sub (model3d.Coord3D_Sub (g3 oi) (g3 on)) (model3d.Matrix3_MulColumn (gm r) (model3d.Coord3D_Sub (g3 pi) (g3 pn))))
+        (model3d.Coord3D_Sub (model3d.Coord3D_Sub (g3 oi) (g3 on)) (model3d.Matrix3_MulColumn (gm r) (model3d.Coord3D_Sub (g3 pi) (g3 pn)))) =
+      w * ArapLin.dot (ArapLin.sub (ArapLin.sub oi on) (r.mulCol (ArapLin.sub pi pn)))
+        (ArapLin.sub (ArapLin.sub oi on) (r.mulCol (ArapLin.sub pi pn))) := by
+  simp only [coord3_sub, mat3_mulColumn, coord3_dot]
 
 end M3d.KernelsTie.MeshOps
